@@ -59,6 +59,11 @@ type descriptor struct {
 	// that has fired does not fire again - no token, no trace, no change in
 	// what the waiters are told.
 	SigStarts int `json:"sigStarts,omitempty"`
+	// CondStarts: bit i set = start event i lists, BEFORE its real outgoing
+	// flow, a conditional flow whose condition is false (to a task that is
+	// never requested); the real flow carries a true condition. The start event
+	// fires once, whichever of its flows the token takes.
+	CondStarts int `json:"condStarts,omitempty"`
 }
 
 func build(d descriptor) *gen.Graph {
@@ -75,6 +80,13 @@ func build(d descriptor) *gen.Graph {
 		st := b.Add(gen.KStart)
 		if d.SigStarts&(1<<i) != 0 {
 			st.Defs = []gen.EventDef{{Kind: "signal", Ref: fmt.Sprintf("ss%d", i)}}
+		}
+		if d.CondStarts&(1<<i) != 0 {
+			dead := b.Add(gen.KTask)
+			de := b.Add(gen.KEnd)
+			ff := b.Connect(st, dead)
+			ff.Formal, ff.Cond = true, gen.False()
+			b.Connect(dead, de)
 		}
 		cur := st
 		n := 0
@@ -145,6 +157,11 @@ func build(d descriptor) *gen.Graph {
 		} else {
 			en := b.Add(gen.KEnd)
 			last = b.Connect(cur, en)
+		}
+		if d.CondStarts&(1<<i) != 0 && len(st.Out) >= 2 {
+			if rf := b.G.Flow(st.Out[1]); rf != nil && rf.Cond == nil {
+				rf.Formal, rf.Cond = true, gen.True()
+			}
 		}
 		if deadStart {
 			last.Formal, last.Cond = true, gen.False()
@@ -484,6 +501,9 @@ func draw(rt *rapid.T) descriptor {
 	if !d.SubDead && rapid.IntRange(0, 3).Draw(rt, "splitCtx") == 0 {
 		d.SplitCtx = true
 		kinds = append(kinds, "cancelBuild")
+	}
+	if rapid.IntRange(0, 2).Draw(rt, "condStarts") == 0 {
+		d.CondStarts = rapid.IntRange(1, 1<<d.Starts-1).Draw(rt, "condStartMask")
 	}
 	if rapid.IntRange(0, 2).Draw(rt, "signalStarts") == 0 {
 		d.SigStarts = rapid.IntRange(1, 1<<d.Starts-1).Draw(rt, "sigStarts")
